@@ -51,7 +51,10 @@ def gen_cases(rng, tier):
             atoms.append(axes)
         cases.append({'m': m, 'rot': rng.random() < 0.3, 'rseed': rng.randrange(10**6), 'species': species, 'atoms': atoms, 'identical': identical,
                       'dim': rng.randint(1, 3), 'z': rng.randint(1, 3), 'temp': rng.choice([300.0, 650.0, 1000.5]), 'dt': rng.choice([1e-15, 2e-15]),
-                      'k': rng.choice([2, 3, 0.5, 1.5]), 's': rng.choice([2.0, 0.5, 4.0])})
+                      'k': rng.choice([2, 3, 0.5, 1.5]), 's': rng.choice([2.0, 0.5, 4.0]),
+                      'as_disp': rng.random() < 0.2, 'base_off': [[rng.randint(-400, 400) for _ in range(3)] for _ in range(na)]})
+        if identical:
+            cases[-1]['base_off'] = [cases[-1]['base_off'][0]] * na          # identical motion includes the step from the base position
     return cases
 
 
@@ -59,7 +62,15 @@ def _metrics(case, k=1.0, s=1.0):
     rot = synth.rotation(random.Random(case['rseed'])) if case['rot'] else None
     c = np.array(case['atoms'], dtype=float).transpose(2, 0, 1) / DEN
     m = (np.array(case['m'], dtype=float) * k).tolist()
-    traj = synth.make_traj(m, case['species'], c, time_step=case['dt'] * s, temperature=case['temp'], rot=rot)
+    if case.get('as_disp'):
+        # the trajectory is handed over as displacements from explicit base positions that differ from the first frame
+        # (legitimate pymatgen input): the distance from the starting point is then non-zero already at frame 0
+        off = np.array(case['base_off'], dtype=float) / DEN                      # atoms x 3
+        d = np.diff(c, axis=0, prepend=(c[:1] - off[None]))
+        traj = synth.make_traj(m, case['species'], d, time_step=case['dt'] * s, temperature=case['temp'], rot=rot,
+                               coords_are_displacement=True, base_positions=np.mod(c[0] - off, 1))
+    else:
+        traj = synth.make_traj(m, case['species'], c, time_step=case['dt'] * s, temperature=case['temp'], rot=rot)
     mt = traj.metrics()
     out = {'density': float(mt.particle_density()), 'molarity': float(mt.mol_per_liter()),
            'dtracer': float(mt.tracer_diffusivity(dimensions=case['dim'])),
@@ -124,7 +135,14 @@ def oracle(case, out):
     if not _close(b['vib'], float(np.std(amps))):
         fs.append(('metrics/vibration-amplitude', 'vibration amplitude is not the standard deviation of the amplitudes'))
     if case['identical'] and not _close(b['haven'], 1.0, 1e-9):
-        fs.append(('metrics/haven-identical-motion', f'all atoms move identically but the Haven ratio is {b["haven"]}'))
+        if case.get('as_disp'):
+            # D20: the centre-of-mass trajectory is rebuilt from unwrapped positions, so its distances are measured from its first frame,
+            # while the atoms' distances are measured from their base positions (which this input places off the first frame)
+            fs.append(('metrics/haven-identical-motion:base-positions-off-first-frame',
+                       f'trajectory given as displacements from base positions {case["base_off"][0]}/4096 before the first frame; all atoms move identically '
+                       f'(including the step from the base) but the Haven ratio is {b["haven"]}'))
+        else:
+            fs.append(('metrics/haven-identical-motion', f'all atoms move identically but the Haven ratio is {b["haven"]}'))
     # scaling laws
     laws = [('density', c['density'], b['density'] / k**3), ('dtracer', c['dtracer'], b['dtracer'] * k * k), ('dcom', c['dcom'], b['dcom'] * k * k),
             ('vib', c['vib'], b['vib'] * k), ('freq', c['freq'], b['freq']), ('haven', c['haven'], b['haven']),
@@ -146,8 +164,8 @@ def oracle(case, out):
 
 
 def coq_term(case, out):
-    if 'base' not in out:
-        return None
+    if 'base' not in out or case.get('as_disp'):
+        return None          # displacement-mode input with explicit base positions: decided by the oracle clauses (the exact tie models frames only)
     b = out['base']
     m = case['m']
     V = lambda v: '(%s, %s, %s)' % tuple(z(x) for x in v)
@@ -171,7 +189,7 @@ def nontrivial(case, out):
 
 
 def classify(case, out):
-    return ['identical-motion' if case['identical'] else 'independent-motion', f'k={case["k"]}', f's={case["s"]}']
+    return ['displacement-mode-input' if case.get('as_disp') else 'position-input', 'identical-motion' if case['identical'] else 'independent-motion', f'k={case["k"]}', f's={case["s"]}']
 
 
 def sample(case, out):
